@@ -411,12 +411,15 @@ def plans(prop, tier):
               ("v7-limits", B(V7=True, Sizes={1387, 1388}, MaxVital=1, MaxNV=1, MaxFaults=0, MaxClock=1)),
               ("v6plain-disc", B(TokenMode=False, Sizes={0}, MaxVital=1, MaxConnless=1, MaxFaults=0, MaxClock=1, MaxDisc=1, Reasons={0, 127})),
               ("v7-disc", B(V7=True, Sizes={0, 1390, 1391}, MaxVital=0, MaxConnless=1, MaxFaults=0, MaxClock=1, MaxDisc=1, Reasons={0, 127}))]
-        dr = [(m, sc, 1, 0) for m in ("v6tok", "v7") for sc in ("smallchunks", "bigchunks")]
+        # two chunks that fill a packet exactly (3+692 + 3+692 = 1390) or overshoot by one byte
+        ex += [("v6tok-fill", B(Sizes={692, 693}, MaxVital=2, MaxNV=0, MaxFaults=0, MaxClock=1)),
+               ("v7-fill", B(V7=True, Sizes={692, 693}, MaxVital=2, MaxNV=0, MaxFaults=0, MaxClock=1))]
+        dr = [(m, sc, 1, 0) for m in ("v6tok", "v7") for sc in ("smallchunks", "bigchunks", "fill")]
         if not q:
             ex += [("v6tok-limits-faults", B(Sizes={0, 1023}, MaxVital=2, MaxNV=1, MaxFaults=1, MaxClock=1)),
                    ("v7-limits-faults", B(V7=True, Sizes={0, 1387}, MaxVital=2, MaxNV=1, MaxFaults=1, MaxClock=1)),
                    ("v6tok-connless", B(Sizes={0, 1390, 1391}, MaxVital=0, MaxConnless=2, MaxFaults=0, MaxClock=1, MaxDisc=1, Reasons={1, 126}))]
-            dr = [(m, sc, 1, 0) for m in ("v6tok", "v6plain", "v7") for sc in ("smallchunks", "bigchunks")] + \
+            dr = [(m, sc, 1, 0) for m in ("v6tok", "v6plain", "v7") for sc in ("smallchunks", "bigchunks", "fill")] + \
                  [(m, "random", s, 1500) for m in ("v6tok", "v6plain", "v7") for s in (21, 22)]
     return mc, live, ex, dr
 
